@@ -3,7 +3,49 @@
 #define VERIF_C_LOAD_H
 #include "contracts/refcount.h"
 #include "contracts/stack.h"
+#include "contracts/builder.h"
 #include "cbor.h"
+
+/* K' (DESIGN 5 C01): what one call of cbor_stream_decode does WHEN ITS CALLBACK TABLE IS THE BUILDER TABLE, as seen
+ * by cbor_load.  It is the composition of the C08 contract (proof stream_decode_contract) with the builder callback
+ * transitions (proofs cb_*, append_*).  That composition, and the fact that cbor_load's function-local static table
+ * holds the 24 builder callbacks (DFCC treats the non-const static as arbitrary), are NOT machine-checked: K' is an
+ * assumed contract (assumptions A9 and A10 in every evidence file that uses it).
+ * Hereditary validity (A1): the frame on top of the stack after the call is handed back as fresh valid objects. */
+#define LCTX(c) ((struct _cbor_decoder_context *)(c))
+#define FRAME_FRESH(st)                                                                                \
+  ((st)->size == 0 ||                                                                                  \
+   (__CPROVER_is_fresh((st)->top, sizeof(struct _cbor_stack_record)) &&                                \
+    __CPROVER_is_fresh((st)->top->item, sizeof(cbor_item_t)) && (st)->top->item->refcount == 1))
+struct cbor_decoder_result cbor_stream_decode__load(cbor_data source, size_t source_size,
+                                                    const struct cbor_callbacks *callbacks, void *context)
+/* cbor_load never calls the decoder with an empty remainder, and always inside the caller's buffer */
+__CPROVER_requires(source_size >= 1 && __CPROVER_r_ok(source, source_size))
+__CPROVER_requires(__CPROVER_rw_ok(LCTX(context), sizeof(struct _cbor_decoder_context)) && STACK_OK(LCTX(context)->stack) &&
+                   !LCTX(context)->creation_failed && !LCTX(context)->syntax_error &&
+                   LCTX(context)->stack->size <= CBOR_MAX_STACK_SIZE && ALLOC_MODEL_BOUND)
+__CPROVER_assigns(ALLOC_GHOSTS, g_b, g_d, LCTX(context)->creation_failed, LCTX(context)->syntax_error, LCTX(context)->root,
+                  *LCTX(context)->stack)
+__CPROVER_ensures(RET.status == CBOR_DECODER_FINISHED || RET.status == CBOR_DECODER_NEDATA || RET.status == CBOR_DECODER_ERROR)
+__CPROVER_ensures(RET.status == CBOR_DECODER_FINISHED ==> (RET.read >= 1 && RET.read <= source_size))
+__CPROVER_ensures(RET.status != CBOR_DECODER_FINISHED ==>
+                  (RET.read == 0 && !LCTX(context)->creation_failed && !LCTX(context)->syntax_error &&
+                   LCTX(context)->stack->size == OLD(LCTX(context)->stack->size)))
+__CPROVER_ensures(LCTX(context)->stack->size <= CBOR_MAX_STACK_SIZE)
+#ifdef VERIF_LOAD_DEPTH_BOUND
+/* bounded stand-in only: the clean-up loop of cbor_load is unwound, so the depth at which a run may fail is bounded */
+__CPROVER_ensures(LCTX(context)->stack->size <= VERIF_LOAD_DEPTH_BOUND)
+#endif
+__CPROVER_ensures(FRAME_FRESH(LCTX(context)->stack));
+
+/* hereditary variant of _cbor_stack_pop for the clean-up loop: the frame below is handed back as valid objects (A1) */
+void _cbor_stack_pop__hered(struct _cbor_stack *stack)
+__CPROVER_requires(ALLOC_MODEL_BOUND && STACK_OK(stack) && stack->size >= 1 && REC_OK(stack->top) && HEAP_BLOCK(stack->top))
+__CPROVER_assigns(ALLOC_GHOSTS, *stack)
+__CPROVER_frees(stack->top)
+__CPROVER_ensures(stack->size == OLD(stack->size) - 1 && g_free_calls == OLD(g_free_calls) + 1 &&
+                  g_malloc_calls == OLD(g_malloc_calls) && g_realloc_calls == OLD(g_realloc_calls))
+__CPROVER_ensures(FRAME_FRESH(stack));
 
 cbor_item_t *cbor_load(cbor_data source, size_t source_size, struct cbor_load_result *result)
 __CPROVER_requires(ALLOC_MODEL_BOUND && source_size <= VERIF_MAXOBJ && __CPROVER_r_ok(source, source_size))
@@ -15,6 +57,8 @@ __CPROVER_ensures(source_size == 0 ==>
 /* failure is always reported with a code, positioned at the bytes consumed so far */
 __CPROVER_ensures(RET == NULL ==> (result->error.code != CBOR_ERR_NONE && result->error.position == result->read &&
                                    result->read <= source_size))
+/* the stack is always emptied; a non-empty input never yields NODATA */
+__CPROVER_ensures(source_size >= 1 ==> result->error.code != CBOR_ERR_NODATA)
 /* success: no error, and a non-empty prefix of the input was consumed */
 __CPROVER_ensures(RET != NULL ==> (result->error.code == CBOR_ERR_NONE && result->read >= 1 && result->read <= source_size));
 #endif
